@@ -827,3 +827,8 @@ func TestC10(t *testing.T) {
 		Budget: ev.Budget{Quick: 15000, Thorough: 150000}, MinNonTrivial: 0.3,
 	})
 }
+
+// FuzzC10 lets the coverage-guided fuzzer drive the value generator.
+func FuzzC10(f *testing.F) {
+	f.Fuzz(rapid.MakeFuzz(ev.FuzzProp("C10", ev.Sub[c10Case]{Name: "values", Gen: genC10, Oracle: oracleC10})))
+}
